@@ -28,7 +28,8 @@ ASSUMPTIONS = [
 RULE = ('structural + text: enumerated depth<=2 (sampled in the quick tier), sampled depth-3 and seeded random typed expressions, each translated and rendered on 4 '
         'providers; LIMIT: query[k:] for k in 0..n+1 on 4 providers (text) and on real SQLite (rows); search: each expression on a fixed table evaluated under the '
         'PostgreSQL / MySQL models from the AST the real translator produced for that provider, compared with the SQLite reading; plus 40 aggregate and 40 ordered queries (400 each when something broke / thorough) whose decoded value / ordered id list under the PostgreSQL and MySQL '
-        'models is compared with the SQLite reading; non-trivial = expression with an '
+        'models is compared with the SQLite reading; plus three query texts executed three times in ONE db_session with different parameter values on the SQLite provider and on the PostgreSQL / MySQL / Oracle pipelines '
+        '(statements + arguments handed to the driver recorded and replayed on SQLite); non-trivial = expression with an '
         'operator; distinct = distinct (provider, query text)')
 
 QUICK = dict(n_random=160, n_enum=200, n_depth3=40, text_random=120, text_enum=160, search_random=150, search_enum=150, search_rows=6)
@@ -407,6 +408,97 @@ def replay_order(ctx, d):
     return order_failure(d['provider'], filt, keys, params, d['rows'])
 
 
+# ---- the same query executed several times inside ONE db_session with different parameter values, on every dialect pipeline: the real
+#      provider / builder / translator of PostgreSQL (pyformat, dict arguments), MySQL (format, tuple) and Oracle (named, dict) bound through the
+#      repo's pool mock-up; the statement and the arguments Pony hands to the driver are recorded and replayed on an in-memory SQLite with
+#      the same rows. Every execution must send a statement with the current values and return the Python answer (as SQLite does).
+
+SESSION_ROWS = [(1, 'a', 1), (2, 'b', 2), (3, 'c', 3), (4, 'd', 4), (5, 'e', 5)]
+SESSION_QUERIES = [
+    ('s.name for s in S if s.n > x0', lambda x0, x1: sorted(name for _, name, n in SESSION_ROWS if n > x0)),
+    ('(s.id, s.name) for s in S if s.name == x1 or s.n == x0', lambda x0, x1: sorted((i, name) for i, name, n in SESSION_ROWS if name == x1 or n == x0)),
+    ('s.n for s in S if s.n in (x0, 5) and s.name != x1', lambda x0, x1: sorted(n for _, name, n in SESSION_ROWS if n in (x0, 5) and name != x1)),
+]
+SESSION_VALUES = [(1, 'a'), (3, 'c'), (2, 'e')]
+
+
+def _session_db(prov):
+    import sqlite3
+    from pony import orm
+    if prov == 'sqlite':
+        db = orm.Database()
+    else:
+        vlib.stub_modules()
+        from pony.orm.tests.testutils import TestDatabase
+        class ReplayDatabase(TestDatabase):
+            def __init__(self, *a, **k):
+                TestDatabase.__init__(self, *a, **k)
+                self.backend = sqlite3.connect(':memory:')
+                self.backend.execute('CREATE TABLE s (id INTEGER PRIMARY KEY, name TEXT NOT NULL, n INTEGER NOT NULL)')
+                self.backend.executemany('INSERT INTO s VALUES (?, ?, ?)', SESSION_ROWS)
+                self.sent = []
+            def _exec_sql(self, sql, arguments=None, returning_id=False):
+                self.sent.append((sql, arguments))
+                if isinstance(arguments, dict): replay = re.sub(r'%\((\w+)\)s', r':\1', sql).replace('%%', '%')
+                else: replay = sql.replace('%s', '?').replace('%%', '%')
+                return self.backend.execute(replay, arguments if arguments is not None else ())
+        db = ReplayDatabase()
+    class S(db.Entity):
+        _table_ = 's'
+        name = orm.Required(str)
+        n = orm.Required(int)
+    if prov == 'sqlite':
+        db.bind('sqlite', ':memory:'); db.generate_mapping(create_tables=True)
+        with orm.db_session:
+            for i, name, n in SESSION_ROWS: S(id=i, name=name, n=n)
+    else:
+        if prov == 'oracle': db.bind('oracle', 'user/pwd@dsn')
+        else: db.bind(prov, database='verif')
+        db.generate_mapping()
+    return db, S
+
+
+def session_run(prov, qi, values):
+    """-> None or a description of the first execution that does not return the Python answer / does not reach the driver."""
+    from pony import orm
+    db, S = _session_db(prov)
+    src, want = SESSION_QUERIES[qi]
+    with orm.db_session:
+        for step, (x0, x1) in enumerate(values):
+            before = len(getattr(db, 'sent', []))
+            got = sorted(orm.select(src, {'S': S, 'x0': x0, 'x1': x1})[:])
+            w = want(x0, x1)
+            if got != w: return 'execution %d (x0=%r, x1=%r) returns %r, Python / SQLite give %r' % (step + 1, x0, x1, got, w)
+            if prov != 'sqlite' and len([q for q, a in db.sent[before:] if q.lstrip().upper().startswith('SELECT')]) != 1:
+                return 'execution %d (x0=%r, x1=%r) sent no statement to the driver' % (step + 1, x0, x1)
+    return None
+
+
+def session_failure(prov, qi, values, msg):
+    what = '%s: select(%s) executed %d times in one db_session with (x0, x1) = %s: %s' % (prov, SESSION_QUERIES[qi][0], len(values), list(values), msg)
+    return Failure('unlisted:%s:re-execution-in-one-session' % prov, what, {'session': {'provider': prov, 'query': qi, 'values': [list(v) for v in values]}})
+
+
+def session_agreement(ctx):
+    evals, failures = 0, []
+    for prov in ('sqlite', 'postgres', 'mysql', 'oracle'):
+        for qi in range(len(SESSION_QUERIES)):
+            values = list(SESSION_VALUES); ctx.rng.shuffle(values)
+            evals += len(values)
+            try: msg = session_run(prov, qi, values)
+            except Exception as ex: msg = 'raises %s: %s' % (type(ex).__name__, str(ex)[:120])
+            if msg is not None:
+                failures.append(session_failure(prov, qi, values, msg)); break
+    return evals, failures
+
+
+def replay_session(d):
+    values = [tuple(v) for v in d['values']]
+    try: msg = session_run(d['provider'], d['query'], values)
+    except Exception as ex: msg = 'raises %s: %s' % (type(ex).__name__, str(ex)[:120])
+    return None if msg is None else session_failure(d['provider'], d['query'], values, msg)
+
+
 def replay_slice(d):
     import props.c25 as c25
     case, n, a, b, prov = d['case'], d['n'], d['a'], d['b'], d['provider']
@@ -458,10 +550,13 @@ def search(ctx, deep):
     a_evals, a_fail, a_seen = aggr_agreement(ctx, deep)
     failures += a_fail
     dist['aggregate_agreement'] = {'evaluations': a_evals, 'disagreeing_by_key': a_seen}
+    r_evals, r_fail = session_agreement(ctx)
+    failures += r_fail
+    dist['same_session_reexecution'] = {'evaluations': r_evals, 'failing': len(r_fail)}
     o_evals, o_fail, o_seen = order_agreement(ctx, deep)
     failures += o_fail
     dist['order_agreement'] = {'evaluations': o_evals, 'disagreeing_by_key': o_seen}
-    return Search(evaluations=len(exprs) + s_evals + a_evals + o_evals, failures=failures, nontrivial=len(nontriv), distribution=dist, exhaustive=False,
+    return Search(evaluations=len(exprs) + s_evals + a_evals + o_evals + r_evals, failures=failures, nontrivial=len(nontriv), distribution=dist, exhaustive=False,
                   samples=[{'case': exprs[len(exprs) // 2][:500]}] if exprs else [])
 
 
@@ -482,6 +577,7 @@ def replay(ctx, data):
     if 'slice' in data: return replay_slice(data['slice'])
     if 'aggr' in data: return replay_aggr(ctx, data['aggr'])
     if 'order' in data: return replay_order(ctx, data['order'])
+    if 'session' in data: return replay_session(data['session'])
     return replay_expr(ctx, data)
 
 
@@ -489,7 +585,7 @@ def replay_expr(ctx, data):
     """One stored input. The recorded findings are evaluated together in one coqc run (cached) to keep the check fast."""
     key = _payload_key(data)
     if key not in _replay_cache:
-        batch = [data] + [k['replay'] for k in vlib.known_for(ID) if k.get('replay') and 'slice' not in k['replay'] and 'aggr' not in k['replay'] and 'order' not in k['replay'] and _payload_key(k['replay']) != key]
+        batch = [data] + [k['replay'] for k in vlib.known_for(ID) if k.get('replay') and 'slice' not in k['replay'] and 'aggr' not in k['replay'] and 'order' not in k['replay'] and 'session' not in k['replay'] and _payload_key(k['replay']) != key]
         cases, owners = [], []
         for d in batch:
             try:
